@@ -80,23 +80,51 @@ TFlushDone == Ev("FlushDone") /\ Adv /\ FlushDone(Rec[l].f) /\ Keep
 TQuiesce   == Ev("Quiesce") /\ Adv /\ Quiesced /\ UNCHANGED vars /\ Keep
 
 \* ---- silent steps -------------------------------------------------------------------------------
+\* The placement of the silent steps is canonical; each rule below only removes runs that are
+\* equivalent to a run that is kept (measured: without them 4 concurrent handlers x 100 requests did
+\* not finish, with them the search is linear in the length of the trace):
+\*  - try_sink / try_append take effect EAGERLY, as soon as the state of the global agrees with the result
+\*    the call reports later (hint).  Taking effect earlier while the global is in the same state changes
+\*    nothing but the time at which the entry counts as accepted / its append as begun, and every
+\*    obligation that follows from that exists at the later time as well.
+\*  - the linearization of a queue append and the writer's pop happen LAZILY, just in time: a pop
+\*    immediately before the line of the popped entry; a linearization when the append of the entry
+\*    (or of one that must be behind it in the FIFO) is about to return or its line is about to be
+\*    written.  Nothing else reads the queue.
+\*  - a FIFO hands entries over in linearization order (r, see QueueTrace.tla); without overflow (the
+\*    driver keeps the capacity above the number of requests) an entry that is never written (r = 0)
+\*    is behind every entry that is written.
+\*  The instants at which attach and the handle drop take effect are placed freely.
 Silent(A) == l <= N /\ A /\ UNCHANGED <<l, rk, hint>>
-SSinkLin == Silent(\E e \in DOMAIN rq : rq[e].sk = "look" /\ (hint[e] = 1) = (aatt # 0) /\ SinkLin(e))
-STryLin  == Silent(\E pe \in pendApp : (hint[pe[2]] = 1) = (aatt # 0) /\ TryLin(pe[2]))
+Agrees(e) == (hint[e] = 1) = (aatt # 0)
+EagerEnabled == \/ \E e \in DOMAIN rq : rq[e].sk = "look" /\ Agrees(e)
+                \/ \E pe \in pendApp : Agrees(pe[2])
+SSinkLin == Silent(\E e \in DOMAIN rq : rq[e].sk = "look" /\ Agrees(e) /\ SinkLin(e))
+STryLin  == Silent(\E pe \in pendApp : Agrees(pe[2]) /\ TryLin(pe[2]))
 SAtt     == Silent(AttachLin \/ DetachLin)
-\* a FIFO hands entries over in linearization order (QueueTrace.tla)
-InOrder(e) == \A pe2 \in pending : rk[e] = 0 \/ rk[pe2[2]] = 0 \/ rk[e] <= rk[pe2[2]]
-SQLin    == Silent(\E pe \in pending : /\ InOrder(pe[2]) /\ QLin(pe[2])
+ForcedBy(e) == Rec[l].ev \in {"DropEnd", "TryEnd", "Line"} /\ Rec[l].e = e
+Urgent(e) == \E pe \in pending : /\ ForcedBy(pe[2])
+                                  /\ ((rk[pe[2]] = 0 /\ Rec[l].ev # "Line") \/ (rk[e] > 0 /\ rk[pe[2]] >= rk[e]))
+InOrder(e) == \A pe2 \in pending : IF rk[e] = 0 THEN rk[pe2[2]] = 0
+                                     ELSE rk[pe2[2]] = 0 \/ rk[e] <= rk[pe2[2]]
+SQLin    == Silent(\E pe \in pending : /\ Urgent(pe[2]) /\ InOrder(pe[2]) /\ QLin(pe[2])
                                        /\ (Len(q) >= cap => rk[Head(q)] = 0))
-SQPop    == Silent(QPop /\ rk[Head(q)] = Len(nexted) + 1)
+SQPop    == Silent(/\ Rec[l].ev = "Line" /\ q # <<>> /\ Head(q) = Rec[l].e
+                   /\ rk[Head(q)] = Len(nexted) + 1 /\ QPop)
 
-TNext_ ==
+Logged ==
     \/ TReset \/ TReqStart \/ TSinkStart \/ TSinkEnd \/ TWork \/ TSubWork \/ TDropStart \/ TDropEnd
     \/ TTryStart \/ TTryEnd \/ TLine \/ TWFlush \/ TWClose \/ TAttStart \/ TAttEnd \/ TDetStart \/ TDetEnd
     \/ TFlushReq \/ TFlushDone \/ TQuiesce
-    \/ SSinkLin \/ STryLin \/ SAtt \/ SQLin \/ SQPop
+
+TNext_ == IF l <= N /\ EagerEnabled THEN SSinkLin \/ STryLin
+          ELSE Logged \/ SAtt \/ SQLin \/ SQPop
 
 TSpec == TInit /\ [][TNext_]_tvars
+
+\* The end-to-end statements are stable (once false they stay false within a scenario), so it is enough -
+\* and much cheaper on long traces - to evaluate them when a scenario has come to rest.
+TraceInv == (l > N \/ Rec[l].ev = "Quiesce") => SvcInv
 
 \* ---- diagnosis of the event that could not be consumed (printed with the rejection) ---------------
 Missing(s) == s \ (lost \cup flushed)
